@@ -138,9 +138,21 @@ func concurrent(r *mon.Run, ks []*big.Int) {
 		}
 	}
 	type res struct{ d0, d1 lattice.Int128 }
-	want := make([]res, len(hard))
-	for i, k := range hard {
-		want[i].d0, want[i].d1 = lattice.FindShortVector(sc(k))
+	// single-goroutine results first, each under the per-call budget: a scalar on which the reduction does not even
+	// terminate alone has been reported by the sequential phase and is left out here
+	var keep []*big.Int
+	var want []res
+	for _, k := range hard {
+		var w res
+		if _, exceeded, panicked, _ := guarded(svBudget, func() { w.d0, w.d1 = lattice.FindShortVector(sc(k)) }); !exceeded && !panicked {
+			keep = append(keep, k)
+			want = append(want, w)
+		}
+	}
+	hard = keep
+	if len(hard) == 0 {
+		r.Inconclusive("no scalar left for the concurrent phase")
+		return
 	}
 	const G, rounds = 8, 6
 	var wg sync.WaitGroup
